@@ -404,7 +404,7 @@ def gen_parameters(rng, big):
     ladder = [33, 50, 63, 64, 65, 100, 127, 128, 129, 200, 255, 256, 257, 258, 272, 300, 400, 511, 512, 513, 700, 1000, 1023, 1024, 1025]
     ladder += [1500, 2047, 2048, 2049, 3000, 4096] if big else [rng.choice([1500, 2047, 2048, 2049])]
     for n in ladder:
-        for orient in ((True, False) if big else (rng.random() < 0.5,)):
+        for orient in ((True, False) if big and n < 1500 else (rng.random() < 0.5,)):
             a, b = limits(rng, rng.randrange(3), orient)
             if rng.random() < 0.3: a, b = a - 3.0, b - 3.0
             f = rand_fac(rng, a, b)
@@ -413,7 +413,7 @@ def gen_parameters(rng, big):
         (x1, x2), (y1, y2) = limits(rng, 0, rng.random() < 0.5), limits(rng, 1, rng.random() < 0.5)
         fx, fy = rand_fac(rng, x1, x2), rand_fac(rng, y1, y2)
         cs.append(Case(f"nested2d Gauss-Legendre_2 {n} {hx(x1)} {hx(x2)} {hx(y1)} {hx(y2)} {product_text([fx, fy], 'xy')} # nd {fx.ann()} {fy.ann()}", ("nested2d", "Gauss-Legendre_2", "points-ladder", "p")))
-    for n in ([33, 50, 64, 65] if big else [rng.choice([33, 40])]):
+    for n in ([33, 50, 64] if big else [rng.choice([33, 40])]):
         lims = [limits(rng, k, rng.random() < 0.5) for k in range(3)]
         facs = [rand_fac(rng, *lims[k]) for k in range(3)]
         flat = " ".join(hx(x) for lm in lims for x in lm)
